@@ -120,6 +120,9 @@ func Body(sc Scenario) (func(x *sched.Exec), *Recorded) {
 		}
 		m := qmodel.New(cfg, start.UnixNano())
 		for _, op := range sc.Setup {
+			if op.Kind == "tick" {
+				time.Sleep(op.Dur) // the store reads the bubble's clock
+			}
 			obs := drv.Do(op)
 			if why := m.Apply(op, obs, nil); why != "" {
 				x.Err = fmt.Errorf("setup %s: %s", op, why)
@@ -135,7 +138,12 @@ func Body(sc Scenario) (func(x *sched.Exec), *Recorded) {
 			th := th
 			x.Go(th.Name, func() {
 				var own []string
-				for _, s := range th.Steps {
+				for si, s := range th.Steps {
+					if si > 0 && len(sc.Ticks) > 0 {
+						// the worker is idle between two of its operations: the clock may move here (a lease that
+						// expires while its holder does something else is the common case, not the exception)
+						x.Yield("idle:" + th.Name)
+					}
 					op := s.Op
 					skip := false
 					sub := func(h string) string {
